@@ -7,7 +7,7 @@ from .common import *
 
 META = {
     'title': 'one-shot independence: for every entry point the attributes read before written are disjoint from everything any method writes after construction (interprocedural effect analysis incl. padding/counter sub-objects, generators, save/restore, memo and index-range idioms)',
-    'expected_min': 81,
+    'expected_min': 94,
     'explanation': 'For each of the 25 object kinds the analysis computes exposed(E) (attribute paths of self, including paths into the padding/counter '
                    'objects it owns, that entry point E may read before writing them) and W (paths any method other than the constructor may write). '
                    'exposed(E) and W must be disjoint; since exposure is computed at entry it also covers an earlier call that ended in an error. '
@@ -85,10 +85,18 @@ def run(ctx):
     repo = ctx.repo
     ctx.rule('C10-R1 S-oneshot')
     nclasses = 0
+    # block modes accept any padding scheme of padding.py as `pad`: analyse each of them, not only the default
+    variants = []
     for rel, cname, entries in KINDS:
-        def one(rel=rel, cname=cname, entries=entries):
-            repo.cls(rel, cname)
-            ce = ClassEffects(repo, rel, cname)
+        variants.append((rel, cname, entries, None, cname))
+        if rel == 'crysp/mode.py' and cname in ('ECB', 'CBC'):
+            for pc in ('Nullpadding', 'bitpadding', 'X923', 'nopadding'):
+                if pc in repo.module('crysp/padding.py').classes:
+                    variants.append((rel, cname, entries, {'pad': ('crysp/padding.py', pc)}, '%s[pad=%s]' % (cname, pc)))
+    for rel, cname0, entries, over, cname in variants:
+        def one(rel=rel, cname0=cname0, cname=cname, entries=entries, over=over):
+            repo.cls(rel, cname0)
+            ce = ClassEffects(repo, rel, cname0, over)
             ctx.analysed.add('%s::%s' % (rel, cname))
             W = set()
             Widx = {}
